@@ -14,8 +14,11 @@ EXTENDS Writer, Json
 
 CONSTANTS NInst, Workloads      \* Workloads: set of call sequences (each a Seq of [op, ...])
 
-VARIABLES ws, pending, shared, sched, given
-vars == <<ws, pending, shared, sched, given>>
+VARIABLES ws, pending, shared, sched, given,
+          optsOf,     \* which options object (the *WriterOptions value the caller passes to NewWriter) each instance is created from
+          optvals,    \* the options objects: NewWriter fills in the default chunk size in the caller's value (as coded)
+          created
+vars == <<ws, pending, shared, sched, given, optsOf, optvals, created>>
 
 Cfg0 == [chunked |-> TRUE, chunkSize |-> 40, comp |-> "", crc |-> TRUE, skipMsgIdx |-> FALSE, skipStats |-> FALSE, skipRepSchemas |-> FALSE,
          skipRepChannels |-> FALSE, skipAttIdx |-> FALSE, skipMdIdx |-> FALSE, skipChunkIdx |-> FALSE, skipSumOffsets |-> FALSE, skipMagic |-> FALSE]
@@ -37,26 +40,48 @@ Apply(w, c) ==
 RECURSIVE Solo(_, _)
 Solo(w, cs) == IF cs = <<>> THEN w ELSE Solo(Apply(w, Head(cs)), Tail(cs))
 
+(* an options value as the caller wrote it: the chunk size is left unset (0); NewWriter writes the default into it *)
+Opts0 == [Cfg0 EXCEPT !.chunkSize = 0]
+Normalise(o) == IF o.chunked /\ o.chunkSize = 0 THEN [o EXCEPT !.chunkSize = 40] ELSE o      \* 40 stands for the default
+
 Init ==
   /\ pending \in [1 .. NInst -> Workloads]
   /\ given = pending
+  \* instances may be created from one and the same options value (restricted growth: canonical naming of the sharing)
+  /\ optsOf \in {f \in [1 .. NInst -> 1 .. NInst] : f[1] = 1 /\ \A i \in 2 .. NInst : f[i] <= 1 + MaxOf({f[j] : j \in 1 .. i - 1})}
+  /\ optvals = [o \in 1 .. NInst |-> Opts0]
+  /\ created = [i \in 1 .. NInst |-> FALSE]
   /\ ws = [i \in 1 .. NInst |-> NewWriter(Cfg0, 3)]
   /\ shared = [magic |-> "MCAP0", version |-> "v"]
   /\ sched = <<>>
 
+(* NewWriter(sink, opts): reads the options value, writes the default chunk size back into it, builds a writer that owns
+   every piece of mutable state it uses (buffers, compressor, tables) *)
+Create(i) ==
+  /\ ~created[i]
+  /\ LET o == Normalise(optvals[optsOf[i]]) IN
+     /\ optvals' = [optvals EXCEPT ![optsOf[i]] = o]
+     /\ ws' = [ws EXCEPT ![i] = NewWriter(o, 3)]
+  /\ created' = [created EXCEPT ![i] = TRUE]
+  /\ sched' = Append(sched, i)
+  /\ UNCHANGED <<pending, shared, given, optsOf>>
+
 Step(i) ==
-  /\ pending[i] # <<>>
+  /\ created[i] /\ pending[i] # <<>>
   /\ ws' = [ws EXCEPT ![i] = Apply(@, Head(pending[i]))]
   /\ pending' = [pending EXCEPT ![i] = Tail(@)]
   /\ sched' = Append(sched, i)
-  /\ UNCHANGED <<shared, given>>
-Next == \E i \in 1 .. NInst : Step(i)
+  /\ UNCHANGED <<shared, given, optsOf, optvals, created>>
+Next == \E i \in 1 .. NInst : Create(i) \/ Step(i)
 Spec == Init /\ [][Next]_vars
 
-Done == \A i \in 1 .. NInst : pending[i] = <<>>
+Done == \A i \in 1 .. NInst : created[i] /\ pending[i] = <<>>
 (* every instance ends with exactly the state (hence the file) of a solo run of its own calls *)
 Independent == Done => \A i \in 1 .. NInst : ws[i] = Solo(NewWriter(Cfg0, 3), given[i])
 SharedUntouched == shared = [magic |-> "MCAP0", version |-> "v"]
 MapOrder == MapOrderIndependent({[k |-> B(1, 1), v |-> B(5, 1)], [k |-> B(2, 1), v |-> B(6, 1)], [k |-> B(3, 2), v |-> B(7, 0)]})
-Export == Done => PrintT(<<"SCHED", ToJson([sched |-> sched, lens |-> [i \in 1 .. NInst |-> Len(given[i])]])>>)
+(* an options value is only ever completed with defaults: what a later NewWriter reads from it is what the first one read *)
+OptionsStable == \A o \in 1 .. NInst : optvals[o] \in {Opts0, Normalise(Opts0)}
+(* sched[k] = i: the next step of instance i, whose first step is its creation *)
+Export == Done => PrintT(<<"SCHED", ToJson([sched |-> sched, lens |-> [i \in 1 .. NInst |-> Len(given[i])], share |-> optsOf])>>)
 ==========================================================================
